@@ -1,5 +1,6 @@
 #![allow(dead_code)]
 mod c01;
+mod c02;
 mod c04;
 mod c09;
 mod c11;
@@ -48,6 +49,13 @@ fn props() -> Vec<Prop> {
         thorough_cases: 450,
         gen: c01::gen_case,
         run: c01::run_case,
+    }, Prop {
+        id: "C02",
+        rule: "case = (grammar; engines A: synthetic multi-byte vocabulary with tokens cut from member strings (spanning lexemes, ending inside UTF-8 characters, duplicates, prefixes), B: single-byte, C: second multi-byte vocabulary; seeded walk in A mirrored byte-wise in B and greedily re-tokenised in C); at every state accepting flag, forced bytes, byte-level continuations and token-vs-bytewise validation for every token of A; distinct non-trivial = distinct (grammar, byte prefix) with a mask of more than one token",
+        quick_cases: 40,
+        thorough_cases: 400,
+        gen: c02::gen_case,
+        run: c02::run_case,
     }, Prop {
         id: "C04",
         rule: "case = random regex AST (classes, negated classes, '.', bounded/unbounded repetition, alternation, (?i), non-ASCII literals; & and ~ in Lark terminal form) in one of three concrete syntaxes; byte strings exhaustive up to length maxlen over <= 6 bytes taken from sampled members plus 'a','b','\\n',0xC3, plus members and their mutations; then 6 mask states over a synthetic multi-byte vocabulary with every token checked; distinct non-trivial = distinct (regex, syntax form) for which both accepted and rejected strings occurred",
